@@ -249,3 +249,14 @@ M("c18_kdq_fill_first_half", KD, "            self._kdqtree.fill(ary, tree_id=\"
 M("c18_nndvi_reference_head", ND, "        nnsp.build(self.reference_batch, test_batch)", "        nnsp.build(self.reference_batch, test_batch[: max(2, len(test_batch) - 1)])", ["C18", "C10"])
 M("c18_hdm_distance_weighted_by_first_row", HD, "        self.current_distance = (1 / self._input_col_dim) * total_distance", "        self.current_distance = (1 / self._input_col_dim) * total_distance * (1.0 if float(X.iloc[0, 0]) <= float(X.iloc[-1, 0]) else 1.000001)", ["C18", "C07"])
 M("c18_kdq_build_sorted_sample", KP, "        n, m = data.shape\n        if n == 0 or m == 0:\n            return None\n        axis = depth % m\n        min_value_at_axis = np.min(data[:, axis])", "        n, m = data.shape\n        if n == 0 or m == 0:\n            return None\n        axis = depth % m\n        min_value_at_axis = np.min(data[: max(1, n - 1), axis]) if depth == 0 else np.min(data[:, axis])", ["C18", "C08"])
+
+EN = "menelaus/ensemble/ensemble.py"
+M("c12_selector_first_member_only", EN, "            X_selected = self.column_selectors[det_key](X)\n            self.detectors[det_key].update(X=X_selected, y_true=y_true, y_pred=y_pred)", "            X_selected = self.column_selectors[det_key](X) if det_key == list(self.detectors)[0] or det_key not in self.column_selectors else X_selected\n            self.detectors[det_key].update(X=X_selected, y_true=y_true, y_pred=y_pred)", ["C12"])
+M("c12_election_reversed", EN, "        det_list = list(self.detectors.values())\n", "        det_list = list(self.detectors.values())[::-1]\n", ["C12"])
+M("c12_reset_skips_last", EN, "        for det_key in self.detectors:\n            self.detectors[det_key].reset()", "        for det_key in list(self.detectors)[:-1] or list(self.detectors):\n            self.detectors[det_key].reset()", ["C12"])
+M("c12_stale_states", EN, "        return {\n            detector_id: detector.drift_state\n            for detector_id, detector in self.detectors.items()\n        }", "        if getattr(self, \"_cache_n\", -1) != getattr(self, \"_total_samples\", getattr(self, \"_total_batches\", 0)) // 2:\n            self._cache_n = getattr(self, \"_total_samples\", getattr(self, \"_total_batches\", 0)) // 2\n            self._cache = {\n                detector_id: detector.drift_state\n                for detector_id, detector in self.detectors.items()\n            }\n        return self._cache", ["C12"])
+M("c12_labels_swapped", EN, "            self.detectors[det_key].update(X=X_selected, y_true=y_true, y_pred=y_pred)", "            self.detectors[det_key].update(X=X_selected, y_true=y_pred, y_pred=y_true)", ["C12"])
+M("c12_set_reference_unselected", EN, "            self.detectors[det_key].set_reference(\n                X=X_selected, y_true=y_true, y_pred=y_pred\n            )", "            self.detectors[det_key].set_reference(\n                X=X_selected if self.batches_since_reset == 0 else X, y_true=y_true, y_pred=y_pred\n            )", ["C12"])
+M("c12_ensemble_auto_reset", EN, "        Ensemble.update(self, X=X, y_true=y_true, y_pred=y_pred)\n        StreamingDetector.update(self, X=X, y_true=y_true, y_pred=y_pred)", "        if self.drift_state == \"drift\":\n            StreamingDetector.reset(self)\n        Ensemble.update(self, X=X, y_true=y_true, y_pred=y_pred)\n        StreamingDetector.update(self, X=X, y_true=y_true, y_pred=y_pred)", ["C12"])
+M("c12_recs_missing_member", EN, "            if hasattr(detector, \"retraining_recs\"):\n", "            if hasattr(detector, \"retraining_recs\") and detector.drift_state != \"warning\":\n", ["C12"])
+M("c12_copy_members", EN, "        self.detectors = detectors.copy()\n", "        import copy as _c\n        self.detectors = {k: _c.deepcopy(v) for k, v in detectors.items()}\n", ["C12"])
